@@ -39,6 +39,11 @@ MODELS = {
                 rate=lambda G, u, st, p: p['gamma'] if st[u] == 'I' else (p['tau'] * _cnt(G, u, st, 'I') if st[u] == 'S' else 0),
                 choice=lambda G, u, st, p: 'R' if st[u] == 'I' else 'I',
                 influence=lambda G, u, st, p: [v for v in G.neighbors(u) if st[v] == 'S']),
+    # no recovery: an infected node's own rate is 0 (the changed node can be the only candidate, and its change enables a neighbour)
+    'SI': dict(statuses=['S', 'I'], params=['tau'],
+               rate=lambda G, u, st, p: 0 if st[u] == 'I' else p['tau'] * _cnt(G, u, st, 'I'),
+               choice=lambda G, u, st, p: 'I',
+               influence=lambda G, u, st, p: [v for v in G.neighbors(u) if st[v] == 'S']),
     'SIS': dict(statuses=['S', 'I'], params=['tau', 'gamma'],
                 rate=lambda G, u, st, p: p['gamma'] if st[u] == 'I' else p['tau'] * _cnt(G, u, st, 'I'),
                 choice=lambda G, u, st, p: 'S' if st[u] == 'I' else 'I',
@@ -57,7 +62,7 @@ MODELS = {
 def _ics(model, n, tier):
     import itertools
     sts = MODELS[model]['statuses']
-    active = {'SIR': 'I', 'SIS': 'I', 'threshold': 'B', 'longrange': 'I'}[model]
+    active = {'SIR': 'I', 'SIS': 'I', 'SI': 'I', 'threshold': 'B', 'longrange': 'I'}[model]
     if tier == 'thorough':
         return [list(a) for a in itertools.product(sts, repeat=n) if active in a]
     out = []
